@@ -325,6 +325,8 @@ def run(ctx):
     proto = 'pickle' if k % 2 == 0 else 'line'
     mpm = ctx.rng.randint(1, 16)
     n = ctx.rng.randint(1, 40)
+    if k in (7, 8) or (not ctx.quick and k % 100 in (7, 8)):
+      mpm, n = 500, ctx.rng.randint(210, 320)       # the default message size, a message of a few hundred datapoints
     trs, dps, raw = one_queue(ctx, he, ctx.rng, proto, mpm, n)
     for t in trs:
       traces.append(t)
